@@ -37,6 +37,7 @@ def runs(tier, seed):
 
 def check(prop, tier, seed, replay):
     if replay:
-        return T.replay(prop, FAM, replay)
+        import json as _json
+        return T.replay(prop, FAM_BIG if _json.load(open(replay)).get("family") == "appsbig" else FAM, replay)
     r = T.merge_runs(runs(tier, seed))
     return T.verdict(prop, FAM, tier, seed, r)
